@@ -56,9 +56,9 @@ func (s *streamWriter) Invoke(msgs []actor.Envelope) {
 	var (
 		typeLookup   = make(map[string]int32)
 		typeNames    = make([]string, 0)
-		senderLookup = make(map[uint64]int32)
+		senderLookup = make(map[pidKey]int32)
 		senders      = make([]*actor.PID, 0)
-		targetLookup = make(map[uint64]int32)
+		targetLookup = make(map[pidKey]int32)
 		targets      = make([]*actor.PID, 0)
 		messages     = make([]*Message, 0, len(msgs))
 	)
@@ -205,12 +205,20 @@ func (s *streamWriter) Start() {
 	s.init()
 }
 
-func lookupPIDs(m map[uint64]int32, pid *actor.PID, pids []*actor.PID) (int32, []*actor.PID) {
+// pidKey identifies a PID in the lookup tables of one envelope. Address and ID
+// are kept apart: PIDs that only differ in how address and ID split must not
+// share an entry.
+type pidKey struct {
+	address string
+	id      string
+}
+
+func lookupPIDs(m map[pidKey]int32, pid *actor.PID, pids []*actor.PID) (int32, []*actor.PID) {
 	if pid == nil {
 		return 0, pids
 	}
 	max := int32(len(m))
-	key := pid.LookupKey()
+	key := pidKey{address: pid.Address, id: pid.ID}
 	id, ok := m[key]
 	if !ok {
 		m[key] = max
